@@ -116,7 +116,8 @@ FastRational gcd(FastRational const & a, FastRational const & b)
 {
     assert(a.isInteger() and b.isInteger());
     if (a.wordPartValid() && b.wordPartValid()) {
-        return FastRational(gcd(a.num, b.num));
+        // The gcd is non-negative, as in the mpq representation; unsigned arithmetic also avoids INT_MIN % -1
+        return FastRational(gcd<uword>(absVal(a.num), absVal(b.num)));
     }
     else {
         a.ensure_mpq_valid();
@@ -130,7 +131,8 @@ FastRational lcm(FastRational const & a, FastRational const & b)
 {
     assert(a.isInteger() and b.isInteger());
     if (a.wordPartValid() && b.wordPartValid()) {
-        return lcm(a.num, b.num);
+        // The lcm is non-negative, as in the mpq representation
+        return lcm<uword>(absVal(a.num), absVal(b.num));
     }
     else {
         a.ensure_mpq_valid();
@@ -174,7 +176,7 @@ overflow:
 FastRational divexact(FastRational const & n, FastRational const & d) {
     assert(d != 0);
     assert(n.isInteger() && d.isInteger());
-    if (n.wordPartValid() && d.wordPartValid()) {
+    if (n.wordPartValid() && d.wordPartValid() && not (n.num == INT_MIN && d.num == -1)) { // INT_MIN / -1 overflows
         word num = n.num;
         word den = d.num;
         word quo;
@@ -188,7 +190,6 @@ FastRational divexact(FastRational const & n, FastRational const & d) {
             return FastRational(0);
         }
     } else {
-        assert(n.mpqPartValid() || d.mpqPartValid());
         n.ensure_mpq_valid();
         d.ensure_mpq_valid();
         mpz_divexact(FastRational::mpz(), mpq_numref(n.mpq), mpq_numref(d.mpq));
